@@ -76,7 +76,7 @@ impl Agg {
         let n = capacity_of(case);
         if nontrivial(armed, &cx.st, n) {
             let fresh = self.nt.insert(case.hash64());
-            if fresh && self.samples.len() < 2 {
+            if fresh && self.samples.len() < 2 && (n >= 2 || self.evaluations > 200) && case.ops.len() <= 24 {
                 self.samples.push((case.clone(), n));
             }
         }
@@ -170,9 +170,33 @@ fn mix(a: u64, b: u64) -> u64 {
     x ^ (x >> 31)
 }
 
+thread_local! {
+    static JOURNAL: std::cell::RefCell<Option<std::fs::File>> = const { std::cell::RefCell::new(None) };
+}
+
+fn journal_open(prop: Prop, worker: usize) {
+    let dir = verif_dir().join("work").join(format!("journal-{}", prop.name()));
+    let _ = std::fs::create_dir_all(&dir);
+    let f = std::fs::OpenOptions::new().create(true).write(true).truncate(true).open(dir.join(format!("w{worker:02}.case"))).ok();
+    JOURNAL.with(|j| *j.borrow_mut() = f);
+}
+
+fn journal(case: &Case) {
+    use std::io::{Seek, SeekFrom, Write};
+    JOURNAL.with(|j| {
+        if let Some(f) = j.borrow_mut().as_mut() {
+            let t = case.to_text(&[]);
+            let _ = f.seek(SeekFrom::Start(0));
+            let _ = f.write_all(t.as_bytes());
+            let _ = f.set_len(t.len() as u64);
+        }
+    });
+}
+
 /// Execute one case once. Returns the context.
 fn exec(case: &Case, armed: Prop, trace: bool) -> Ctx {
     let mut cx = Ctx::new(armed, trace);
+    journal(case);
     run_case(case, &mut cx);
     cx
 }
@@ -267,6 +291,7 @@ fn run_campaign(prop: Prop, camp: &Campaign, tier: &str, seed: u64, ci: usize, s
                     .stack_size(64 << 20)
                     .spawn_scoped(sc, move || {
                         let mut agg = Agg::new();
+                        journal_open(prop, wk);
                         let cfg = Config {
                             cases,
                             failure_persistence: None,
@@ -619,6 +644,18 @@ fn write_evidence(prop: Prop, tier: &str, seed: u64, agg: &Agg, wall: f64, corpu
     if let Some(r) = replay {
         cov.push(("replay".into(), J::S(r.display().to_string())));
     }
+    if let Ok(aux) = std::env::var("VERIF_AUX_EVIDENCE") {
+        let mut others: Vec<(String, J)> = Vec::new();
+        for p in aux.split(':').filter(|p| !p.is_empty()) {
+            if let Ok(t) = std::fs::read_to_string(p) {
+                let name = Path::new(p).file_name().map(|f| f.to_string_lossy().to_string()).unwrap_or_default();
+                others.push((name, J::Raw(t)));
+            }
+        }
+        if !others.is_empty() {
+            cov.push(("other_profiles_same_run".into(), J::O(others)));
+        }
+    }
     let doc = J::O(vec![
         ("property_id".into(), J::S(prop.name())),
         ("tier".into(), J::S(tier.into())),
@@ -636,7 +673,7 @@ fn write_evidence(prop: Prop, tier: &str, seed: u64, agg: &Agg, wall: f64, corpu
         ("wall_s".into(), J::N((wall * 1000.0).round() / 1000.0)),
         ("violations".into(), J::N(if agg.violation.is_some() { 1.0 } else { 0.0 })),
     ]);
-    let dir = verif_dir().join("evidence");
+    let dir = std::env::var("VERIF_EVIDENCE_DIR").map(PathBuf::from).unwrap_or_else(|_| verif_dir().join("evidence"));
     let _ = std::fs::create_dir_all(&dir);
     let suffix = std::env::var("VERIF_EVIDENCE_SUFFIX").unwrap_or_default();
     let mut s = String::new();
